@@ -44,6 +44,9 @@ class CombiningPatternEncoder(PatternEncoderBase):
         if src[0].conns != [1]:
             # Check if there is only 1 target node and if repeated connections are allowed
             if len(tgt) == 1 and tgt[0].rep and src[0].rep:
+                # The collapsed encoding maps values to all amounts between min and max, so no gaps are allowed
+                if any(not n.max_inf and n.conns != list(range(n.conns[0], n.conns[-1]+1)) for n in (src[0], tgt[0])):
+                    return False
                 if initialize:
                     self.is_collapsed = True
                 return self.is_collapsed
